@@ -34,6 +34,18 @@ var Metas = map[string]Meta{
 		Technique: "symbolic execution of go/ssa + SMT; native replay",
 		Design:    "DESIGN.md §4 C05",
 	},
+	"C10": {
+		Text:      "Decided as an inductive argument whose lemmas are each a bounded solver check on the real code: (L1) every child started by Supervisor.handleAction and Pool carries LinkParent; (L2) node.spawn with LinkParent adds the child->parent link before the child can run; (L3) the parent's termination (any reason class, or Kill) delivers exactly one exit signal from the parent to every link holder; (L4) the standard behaviours terminate on an exit from the parent whatever the trap flag; (L5) a supervisor returns its own termination reason only after every child is gone; (L6) application stop and graceful node stop return success only after every member/process has terminated, each exactly once (real spawn, Kill, SendExit, runner goroutine, unregisterProcess, wait group).",
+		Note:      bmcNote + " The composition of the lemmas into 'no orphan in any tree' is an argument, not a whole-system run: arbitrary trees, raw behaviours that ignore exit signals and kill points inside a live tree are outside.",
+		Technique: "symbolic execution of go/ssa per lemma + SMT; native replay",
+		Design:    "DESIGN.md §4 C10",
+	},
+	"C20": {
+		Text:      "For specs of a bounded crontab grammar (every item form per field; parsed by the real cronParseSpec inside the executor) the real cronSpecMask.IsRunAt is executed on top of the real time.Time calendar arithmetic at a symbolic instant between 2000 and 2100 (UTC and two fixed-offset zones) and compared with a branch-free reference over civil fields. Minute and hour fields use z3; month, day-of-month and day-of-week need the 64-bit division chains of time.absDate and are decided by cvc5 with int-blasting (one process per query). Quick: every minute/hour form, plain numbers and ranges for the date fields; thorough adds lists, steps, L, dL, d#n and the day-of-month OR day-of-week rule as far as the time budget allows (the evidence lists what completed).",
+		Note:      bmcNote + " Time zones with DST transitions, the one-minute timer loop and the Schedule/JobSchedule API are outside unless listed in the evidence; the reference uses the time package for the civil fields.",
+		Technique: "symbolic execution of go/ssa (incl. stdlib time) + SMT: QF_BV with z3, int-blasted BV with cvc5; differential against a reference; native replay",
+		Design:    "DESIGN.md §4 C20",
+	},
 	"C11": {
 		Text:      "The real edf.Encode and edf.Decode (getEncoder/decodeType closures, all leaf codecs, registered struct/named types, atom/reg/error caches) run symbolically on top of an executor-level model of package reflect; the value is symbolic (all bits of every integer/float kind, every byte of strings/binaries/atoms/error texts, identifier fields, cache ids) and shapes are enumerated (lengths 0..8, element counts <=2, nil vs empty, nesting depth 2, lengths 65533..65536 for strings). Assertion: the encoder accepts the value, the decoder returns an equal value of the same dynamic type and an empty tail; unrepresentable values are rejected by the encoder.",
 		Note:      bmcNote + " reflect is modelled by the executor (reflect.Value/Type methods over go/types and executor values, listed under stubs); time.Time, custom marshalers and >4 GiB binaries are outside.",
